@@ -1906,7 +1906,12 @@ theorem restartNode_nosnap (d : Durable) (retain : Nat) (sor : Bool) (hs : d.sna
   extract_lets snap log lastIdx lastT sc latest committed
   have e0 : snap = {} := by unfold snap; rw [hs]; rfl
   have e1 : log = d.log := by
-    unfold log; rw [e0]; rw [if_neg]; show ¬ d.log.last < 0; omega
+    have hst : staleLog d = false := by
+      unfold staleLog
+      rw [hs]
+      show (decide (d.log.last < 0) || (decide (d.log.prev < 0) && _)) = false
+      simp
+    unfold log; rw [hst]; rfl
   refine ⟨by show snap.index = 0; rw [e0], hs, by show log.prev = 0; rw [e1]; exact hp,
     by show log.entries = _; rw [e1], ?_, ?_, rfl, rfl⟩
   · show lastIdx = _
